@@ -190,8 +190,7 @@ Definition strip_root (root name : list N) : option (bool * list N) :=
   if is_prefix root name then
     match skipn (length root) name with
     | [] => Some (true, name)
-    | 47 :: r => Some (false, r)
-    | _ => None
+    | x :: r => if x =? 47 then Some (false, r) else None
     end
   else None.
 
@@ -202,8 +201,8 @@ Definition retarget (root link : list N) : list N :=
   | CanonOk c =>
     if is_prefix root c then
       match skipn (length root) c with
-      | 47 :: r => 47 :: r
-      | _ => link
+      | x :: r => if x =? 47 then x :: r else link
+      | [] => link
       end
     else link
   | _ => link
@@ -216,8 +215,8 @@ Definition retarget_old (root link : list N) : list N :=
   | CanonOk c =>
     if is_prefix root c then
       match skipn (length root) c with
-      | 47 :: r => 47 :: r
-      | _ => c
+      | x :: r => if x =? 47 then x :: r else c
+      | [] => c
       end
     else c
   | CanonFail buf => buf
